@@ -379,7 +379,7 @@ def rule_r3(repo: Repo, res: Result) -> None:
             res.undecide("C04.R3", key + " [name relative to the source root]", f"cannot see how the registered name `{show(el, 120)}` is computed from the path relative to the source root", wh)
             continue
         rel = rels.pop()
-        from_walk = rel[1] == strip_abs(rel[1])
+        from_walk = rel[1][0] != "ABS"
         res.add("C04.R3", key + " [name of the visited path]", from_walk, "the name is computed from the path as it was found by the walk" if from_walk else f"the module name is computed from the resolved path `{show_loc(rel[1])}` instead of the path found by the walk: a symlinked file is registered under its target's name and a relative root_path makes relative_to fail", wh, kind="flow")
         init = repo.lookup_method(info.parse.cls, "__init__") if info.parse.cls else None
         root_param = f"{info.parse.cls.name}.{init.param_names[2]}" if init is not None and len(init.param_names) > 2 else None
@@ -429,6 +429,10 @@ def rule_r3(repo: Repo, res: Result) -> None:
             g_gen = as_root(f_or([g for g, _v in general])) if general else FALSE
             known = as_root(reg.known)
             ok = implies(f_and([known, atom("ROOT")]), g_root) and implies(f_and([known, g_root]), atom("ROOT")) and implies(f_and([known, g_gen]), f_not(atom("ROOT")))
+            unread = sorted((atoms_of(g_root) | atoms_of(g_gen)) - atoms_of(known) - {"ROOT"})
+            if not ok and (unread or not tests):
+                res.undecide("C04.R3", key + " [root maps to its own name]", f"cannot read `{(unread or sorted(atoms_of(g_root)))[0][:140]}` as the test 'the path is the source root'", wh)
+                continue
             detail = "the root directory itself is named by its directory name" if ok else f"the source root is not named by its own directory name exactly when the relative path is empty (root case under `{show_formula(g_root)[:120]}`)"
         res.add("C04.R3", key + " [root maps to its own name]", ok, detail, wh, kind="dominance")
     res.floor("C04.R3", 1, done)
@@ -440,8 +444,29 @@ def rule_r3(repo: Repo, res: Result) -> None:
 def _slice_of(t: Term):
     """(sequence, lower, upper) of `s[lo:hi]` with constant bounds (None when absent); (t, None, None) for a plain sequence."""
     if t[0] == "slice" and is_const(t[4], None) and all(x[0] == "const" and (x[1] is None or isinstance(x[1], int)) for x in (t[2], t[3])):
-        return t[1], t[2][1], t[3][1]
-    return t, None, None
+        return _mapped_source(t[1]), t[2][1], t[3][1]
+    if t[0] == "call" and t[1] == ("lib", "itertools.islice") and len(t[2]) in (2, 3) and all(x[0] == "const" and (x[1] is None or isinstance(x[1], int)) for x in t[2][1:]):
+        if len(t[2]) == 2:
+            return _mapped_source(t[2][0]), None, t[2][1][1]
+        return _mapped_source(t[2][0]), t[2][1][1], t[2][2][1]
+    return _mapped_source(t), None, None
+
+
+def _mapped_source(t: Term) -> Term:
+    """`[f(x) for x in s]` (no filter) has one element per element of `s`, in the same order: positions in it are positions in s."""
+    u = t
+    while True:
+        if u[0] == "box" and u[3][0] in ("call", "comp"):
+            u = u[3]
+        elif u[0] == "call" and u[1] in (("builtin", "list"), ("builtin", "tuple")) and len(u[2]) == 1:
+            u = u[2][0]
+        else:
+            break
+    if u[0] == "comp" and u[1] in ("list", "gen") and len(u[3]) == 1 and not [c for c in u[3][0][2] if c != TRUE]:
+        return _mapped_source(u[3][0][1])
+    if u[0] == "call" and u[1] == ("builtin", "map") and len(u[2]) == 2:
+        return _mapped_source(u[2][1])
+    return t
 
 
 def _slice_len(lo, hi):
